@@ -35,6 +35,7 @@ func pick[T any](p *prng, xs []T) T      { return xs[p.intn(len(xs))] }
 type genCtx struct {
 	r    *prng
 	w, h int
+	tiny bool // tiny world: tiny screens, parameters around the screen size, a three-letter alphabet
 }
 
 func in(class string, b []byte) Item {
@@ -47,6 +48,10 @@ var zeroRunes = []string{"́", "‍", "️", "­"}
 
 func (g *genCtx) param() string {
 	w, h := g.w, g.h
+	if g.tiny {
+		// tiny world: only parameters around the (tiny) screen
+		return pick(g.r, []string{"", "0", "1", "1", "2", "2", "3", strconv.Itoa(w), strconv.Itoa(h), strconv.Itoa(w + 1), strconv.Itoa(h + 1), strconv.Itoa(w - 1), strconv.Itoa(h - 1)})
+	}
 	pool := []string{"", "0", "1", "2", "3", strconv.Itoa(w - 1), strconv.Itoa(w), strconv.Itoa(w + 1),
 		strconv.Itoa(h - 1), strconv.Itoa(h), strconv.Itoa(h + 1), "255", "256", "65535",
 		"2147483647", "2147483648", "4294967296", "9223372036854775807", "9223372036854775808",
@@ -74,8 +79,17 @@ func (g *genCtx) smallParam() string {
 
 func (g *genCtx) text(n int, wide, zero bool) []byte {
 	var sb strings.Builder
+	if g.tiny && n > g.w+2 {
+		n = g.w + 2
+	}
 	for i := 0; i < n; i++ {
 		switch {
+		case g.tiny && wide && g.r.chance(1, 3):
+			sb.WriteString(pick(g.r, []string{"中", "🐹"}))
+		case g.tiny && zero && g.r.chance(1, 6):
+			sb.WriteString(pick(g.r, []string{"́", "️"}))
+		case g.tiny:
+			sb.WriteByte(byte('a' + g.r.intn(3)))
 		case wide && g.r.chance(1, 4):
 			sb.WriteString(pick(g.r, wideRunes))
 		case zero && g.r.chance(1, 8):
@@ -168,6 +182,9 @@ func (g *genCtx) item(class string) Item {
 	case "index":
 		return in(class, pick(r, [][]byte{{27, 'D'}, {27, 'M'}, {27, 'D'}, {27, 'M'}, {10}, {12}}))
 	case "sgr":
+		if g.tiny {
+			return in(class, csi(pick(r, []string{"", "0", "1", "7", "31", "44", "1;31", "7;44", "38;5;1", "22", "27", "39", "49", "4", "9", "53"})+"m"))
+		}
 		n := 1 + r.intn(4)
 		if r.chance(1, 8) {
 			n = 7 + r.intn(30)
@@ -549,6 +566,9 @@ var macroNames = []string{"save-resize-restore", "outside-region", "alt-roundtri
 
 func (g *genCtx) sizePick() (int, int) {
 	r := g.r
+	if g.tiny {
+		return 1 + r.intn(5), 1 + r.intn(4)
+	}
 	switch r.intn(12) {
 	case 0:
 		return 1, 1
@@ -580,6 +600,7 @@ type profile struct {
 	sizes        func(g *genCtx) (int, int)
 	gridGrapheme bool     // also run grapheme mode on the grid buffer (without the model)
 	shortWrites  int      // percent of cases whose backend short-writes
+	tiny         int      // percent of tiny-world cases (0 = default 25, -1 = none)
 	macros       int      // percent of positions filled by a macro scenario
 	macroSet     []string // which macros (nil = all)
 }
@@ -651,6 +672,12 @@ func genCase(p *profile, r *prng) Case {
 	} else {
 		g.w, g.h = smallSizes(g)
 	}
+	if p.tiny >= 0 && r.intn(100) < max(p.tiny, 25) {
+		// small-scope cases: every boundary of the screen is a couple of operations away, so
+		// interactions between operations are covered densely
+		g.tiny = true
+		g.w, g.h = pick(r, []int{1, 2, 2, 3, 3, 4, 4, 5}), pick(r, []int{1, 2, 2, 3, 3, 4})
+	}
 	c := Case{W: g.w, H: g.h, Grid: r.intn(100) < p.grid, Chunk: pick(r, p.chunks)}
 	if r.intn(100) < p.gmode {
 		c.Mode = 1
@@ -675,6 +702,9 @@ func genCase(p *profile, r *prng) Case {
 		total += p.weights[k]
 	}
 	n := p.minLen + r.intn(p.maxLen-p.minLen+1)
+	if g.tiny {
+		n = 12 + r.intn(50)
+	}
 	for i := 0; i < n; i++ {
 		if p.macros > 0 && r.intn(100) < p.macros {
 			ms := p.macroSet
